@@ -58,6 +58,8 @@ def C05(ck):
     kzreader.replay(ck, scen, {'R_Prefix', 'R_NothingAfterError'})
     kzreader.record(ck, 'c05', 1500 if T else 250, thorough=T)
     kzreader.record(ck, 'c05m', 0, thorough=T)
+    # the failure clause on real streams: a source that ends inside block k is a decoding failure of block k
+    kzreader.record(ck, 'c09', 800 if T else 150, thorough=T)
     ck.assumptions += ['abstract bytes are scaled to real bytes by realB/B (all cursor arithmetic is homogeneous)',
                        'codec correctness on the generated data is C01/C12/C13 territory: runs whose reference decode fails are skipped']
 
@@ -130,6 +132,11 @@ def C09(ck):
             if n > 0:
                 cfgs.append(rcfg(jobs, ['ok'] * n, lens=(3,), hint=n + 1))
                 cfgs.append(rcfg(jobs, ['ok'] * n, lens=(3,), hint=1))
+            if n >= 2:
+                # ... read with a block range: the end may be missing inside or right after a block that the range skips
+                cfgs.append(rcfg(jobs, ['ok'] * n, lens=(3,), fr=2, to=0))
+                cfgs.append(rcfg(jobs, ['ok'] * n, lens=(3,), fr=n + 1, to=n + 2))
+                cfgs.append(rcfg(jobs, ['ok'] * n, lens=(3,), fr=1, to=2))
     ck.cov['rule'] = ('KzReader on wires without end marker (every number of complete blocks, jobs, hint, Read lengths): never a clean EOF; '
                       'every edge replayed on the real Reader with the real stream cut at the corresponding position; record mode: every cut '
                       'position 0..len-1 of small real streams (c09x) and random cuts of larger ones (c09), with and without checksum, '
@@ -193,6 +200,9 @@ def C04(ck):
     scen = kzwriter.run_models(ck, cfgs, liveness_cfgs=[wcfg(3, 7, lens=(3, 5))])
     kzwriter.replay(ck, scen)
     kzwriter.record(ck, 'c04', 150 if T else 33, thorough=T)
+    # "every run": a run in which the sink failed once and Close was retried until it reported success has produced the same bytes
+    # (W_CloseOK compares the sink with the frames of the accepted data)
+    kzwriter.record(ck, 'c08', 6 if T else 3, thorough=True)
     ck.assumptions += ['E_Local (transform + entropy coding of one block) is treated as a function of the block: the record-mode digests test it']
 
 
